@@ -66,12 +66,64 @@ class Renamer(ast.NodeTransformer):
         return node
 
 
-def rewrite_tree(root: Path, rename: bool) -> int:
+class LogInserter(ast.NodeTransformer):
+    """Adds a debug log line at the start of every function body and after every `with` header:
+    `logging.getLogger(__name__).debug("<function name>")` (the module gets `import logging`)."""
+
+    def _probe(self, text: str) -> ast.stmt:
+        return ast.parse(f"logging.getLogger(__name__).debug({text!r})").body[0]
+
+    def visit_FunctionDef(self, node):
+        self.generic_visit(node)
+        body = node.body
+        i = 1 if body and isinstance(body[0], ast.Expr) and isinstance(body[0].value, ast.Constant) and isinstance(body[0].value.value, str) else 0
+        if any(isinstance(d, ast.Name) and d.id == "overload" for d in node.decorator_list):
+            return node
+        node.body = body[:i] + [self._probe(node.name)] + body[i:]
+        return node
+
+    visit_AsyncFunctionDef = visit_FunctionDef
+
+    def visit_With(self, node):
+        self.generic_visit(node)
+        node.body = node.body + [self._probe("leaving with")]
+        return node
+
+
+class BranchFlipper(ast.NodeTransformer):
+    """`if c: A else: B` -> `if not c: B else: A` (only two-armed ifs whose else is not an elif chain)."""
+
+    def visit_If(self, node):
+        self.generic_visit(node)
+        if node.orelse and not (len(node.orelse) == 1 and isinstance(node.orelse[0], ast.If)):
+            has_walrus = any(isinstance(x, ast.NamedExpr) for x in ast.walk(node.test))
+            if not has_walrus:
+                if isinstance(node.test, ast.UnaryOp) and isinstance(node.test.op, ast.Not):
+                    node.test = node.test.operand
+                else:
+                    node.test = ast.UnaryOp(op=ast.Not(), operand=node.test)
+                node.body, node.orelse = node.orelse, node.body
+        return node
+
+
+def rewrite_tree(root: Path, rename: bool, mode: str = "") -> int:
     n = 0
     for f in list(root.rglob("*.py")):
         tree = ast.parse(f.read_text())
         if rename:
             tree = Renamer().visit(tree)
+            ast.fix_missing_locations(tree)
+        if mode == "log":
+            tree = LogInserter().visit(tree)
+            # after the module docstring and __future__ imports
+            k = 0
+            for k, st in enumerate(tree.body):
+                if not ((isinstance(st, ast.Expr) and isinstance(st.value, ast.Constant)) or (isinstance(st, ast.ImportFrom) and st.module == "__future__")):
+                    break
+            tree.body.insert(k, ast.parse("import logging").body[0])
+            ast.fix_missing_locations(tree)
+        if mode == "flip":
+            tree = BranchFlipper().visit(tree)
             ast.fix_missing_locations(tree)
         f.write_text(ast.unparse(tree) + "\n")
         n += 1
